@@ -1,5 +1,6 @@
 import RV.C05.Model
 import RV.C05.Utf8
+import RV.C05.NtParser
 import RV.Base.Proto
 /-
   C05 driver (stateless).  Strings cross the protocol as decimal code points; fields are
@@ -17,6 +18,12 @@ import RV.Base.Proto
     u8d b…                    -> reject | ok cp…                      Utf8.decode (strict)
     route sx r cp…            -> reject | ok cp…                      Utf8.handed: what the reader of syntax sx
                                  (nt|nquads|turtle|trig) receives on route r (str|bytes|file)
+
+    ntpl cp… / nqpl cp…       -> ok - | ok S P O [G] | ParseError | ValueError | OverflowError | KeyError
+                                 the MODEL OF RDFLIB'S PARSER on one line (Py.ntParseline / Py.nqParseline);
+                                 `ok -` = nothing handed to the sink (empty line / comment)
+    ntpd cp… / nqpd cp…       -> ok ; S P O [G] ; … | ParseError | ValueError | OverflowError | KeyError
+                                 the model of `parse()` on a whole document (Py.ntParse / Py.nqParse)
 
   Term syntax in answers: I<cps> B<cps> P<cps> G<cps>|<cps> T<cps>|<cps>, code points comma-separated.
 -/
@@ -108,6 +115,46 @@ def answer : List String → String
     | _ => "bad-op"
   | _ => "bad-op"
 
+/-! the model of rdflib's parser -/
+
+def showNatsC (s : List Nat) : String := ",".intercalate (s.map toString)
+
+def showPTerm : Py.PTerm → String
+  | .iri i => "I" ++ showNatsC i
+  | .bnode l => "B" ++ showNatsC l
+  | .lit x none none => "P" ++ showNatsC x
+  | .lit x (some t) _ => "G" ++ showNatsC x ++ "|" ++ showNatsC t
+  | .lit x none (some d) => "T" ++ showNatsC x ++ "|" ++ showNatsC d
+
+def showPTriple (t : Py.PTriple) : String := showPTerm t.1 ++ " " ++ showPTerm t.2.1 ++ " " ++ showPTerm t.2.2
+def showPQuad (q : Py.PQuad) : String :=
+  showPTerm q.1 ++ " " ++ showPTerm q.2.1 ++ " " ++ showPTerm q.2.2.1 ++ " " ++
+    (match q.2.2.2 with | some g => showPTerm g | none => "-")
+
+def showErr : Py.Err → String
+  | .parse => "ParseError" | .value => "ValueError" | .overflow => "OverflowError" | .key => "KeyError"
+
+def answerP : List String → Option String
+  | "ntpl" :: ws => (cps? ws).map (fun l =>
+      match Py.ntParseline l with
+      | .error e => showErr e
+      | .ok none => "ok -"
+      | .ok (some t) => "ok " ++ showPTriple t)
+  | "nqpl" :: ws => (cps? ws).map (fun l =>
+      match Py.nqParseline l with
+      | .error e => showErr e
+      | .ok none => "ok -"
+      | .ok (some q) => "ok " ++ showPQuad q)
+  | "ntpd" :: ws => (cps? ws).map (fun d =>
+      match Py.ntParse d with
+      | .error e => showErr e
+      | .ok ts => "ok" ++ String.join (ts.map (fun t => " ; " ++ showPTriple t)))
+  | "nqpd" :: ws => (cps? ws).map (fun d =>
+      match Py.nqParse d with
+      | .error e => showErr e
+      | .ok qs => "ok" ++ String.join (qs.map (fun q => " ; " ++ showPQuad q)))
+  | _ => none
+
 def nats? (ws : List String) : Option (List Nat) := ws.mapM String.toNat?
 def showNatsSp (xs : List Nat) : String := " ".intercalate (xs.map toString)
 def okNats : Option (List Nat) → String
@@ -129,6 +176,8 @@ def answerU : List String → Option String
   | _ => none
 
 def step (s : Unit) (ws : List String) : Unit × String :=
-  (s, match answerU ws with | some a => a | none => answer ws)
+  (s, match answerU ws with
+      | some a => a
+      | none => match answerP ws with | some a => a | none => answer ws)
 
 def main : IO Unit := RV.Proto.run step ()
